@@ -3,10 +3,9 @@
  *   Q <argcGuess> op op ...
  *   ops: i:k:e priqInsert | x priqExtractMin | p priqPeekMin | n priqCount | z allocated size
  *        k priqCheck | m priqMap (pre-order) | d used slots in array order
- * Guards of the driver (preconditions the module does not check itself): priqExtractMin and
- * priqPeekMin are not called on an empty queue (the module tests `size == 0`, never true, and
- * would touch argv[-1]); priqCheck is only called when no parent key equals or exceeds a child
- * key, because it calls bug() (exit) otherwise -- the driver answers 0 in that case.
+ * Guard of the driver: priqExtractMin and priqPeekMin are not called on an empty queue (the
+ * module calls bug() = abort there); the driver answers `empty`.  priqCheck is called
+ * unconditionally: it returns true or calls bug() (abort -> FAULT) when the heap is out of order.
  */
 #include "axlgen.h"
 #include "priq.h"
@@ -67,12 +66,7 @@ int main(int argc, char **argv)
 			}
 			else if (!strcmp(op, "n")) printf("%lu", (unsigned long) priqCount(pq));
 			else if (!strcmp(op, "z")) printf("%lu", (unsigned long) pq->size);
-			else if (!strcmp(op, "k")) {
-				Length j; int strict = 1;
-				for (j = 1; j < pq->argc; j++)
-					if (pq->argv[(j - 1) / 2].key >= pq->argv[j].key) strict = 0;
-				if (strict) printf("%d", (int) priqCheck(pq)); else putchar('0');
-			}
+			else if (!strcmp(op, "k")) printf("%d", (int) priqCheck(pq));
 			else if (!strcmp(op, "m")) { mfirst = 1; priqMap((PriQMapFn) mapfn, pq); }
 			else if (!strcmp(op, "d")) {
 				Length j;
